@@ -137,7 +137,12 @@ def check(ctx):
     for p in returns(paths2):
         calls = [e for e in p.events if e.kind == "int_call" and e.data["callee"] == q]
         if len(calls) != 1:
-            raise AnalysisError(f"{q2}: expected one call of relative_permeabilities")
+            ctx.bad(
+                "C14-d", q2 + ":evaluates relative_permeabilities", f2.where(),
+                "the two-phase helper obtains its curves from relative_permeabilities itself, once - so that the same admissibility checks (exponents, residuals, end-points, saturations summing to one) and the same formula apply on both entry points",
+                signature=f"calls {len(calls)}", calls=len(calls),
+            )
+            continue
         # the records handed over are built from a table {So, Sw, Sg}
         # follow the argument back to the table through content-preserving conversions only
         arg = calls[0].data["args"]["saturations"]
